@@ -224,6 +224,9 @@ def replay_call_gate(w):
 
 
 # =====================================================================================================================
+TYPE_FN = z3.Function("py_type", Obj, Obj)
+
+
 class IsSafeCallable(VC):
     """"By default callables are considered safe unless decorated with unsafe.  This also recognizes the Django convention of
     setting func.alters_data = True."  `unsafe` "marks a function or method as unsafe" and the sandbox documentation says
@@ -257,6 +260,14 @@ class IsSafeCallable(VC):
             return [(st, Sym(z3.Or(*ts) if ts else z3.BoolVal(False), "bool"))]
 
         I.specs[("fn", id(any))] = any_spec
+        from pyvc import models as M_
+
+        def builtin_type(I_, st, args, kwargs, node):
+            if len(args) == 1 and isinstance(args[0], Sym) and args[0].k == "obj":
+                return [(st, Sym(TYPE_FN(args[0].t), "obj"))]
+            return M_.instantiate(I_, st, type, args, kwargs, node)
+
+        I.specs[("fn", id(type))] = builtin_type
 
     def setup(self, I, st):
         from pyvc.ops import isinst_fn
@@ -280,6 +291,12 @@ class IsSafeCallable(VC):
         return z3.If(self.istype, z3.Or(self.M(attr_fn("__new__")(o)), self.M(attr_fn("__init__")(o))),
                      z3.And(has_fn("__call__")(o), self.M(attr_fn("__call__")(o))))
 
+    def type_call_marked(self):
+        """`obj(...)` runs type(obj).__call__ - for a class that is the metaclass's __call__, for an instance the class's __call__ even
+        when an instance attribute of that name shadows it (hunt i2/C18_2)"""
+        t = TYPE_FN(self.obj.t)
+        return z3.And(has_fn("__call__")(t), self.M(attr_fn("__call__")(t)))
+
     def p_marked(self, pre, out):
         if out.raised:
             return False
@@ -290,12 +307,18 @@ class IsSafeCallable(VC):
             return False
         return z3.Implies(self.invoked_marked(), z3.Not(_sbx.ret_term(out.value)))
 
+    def p_type_call(self, pre, out):
+        if out.raised:
+            return False
+        return z3.Implies(self.type_call_marked(), z3.Not(_sbx.ret_term(out.value)))
+
     def p_otherwise(self, pre, out):
         if out.raised:
             return False
-        return z3.Implies(z3.Not(z3.Or(self.marked(), self.invoked_marked())), _sbx.ret_term(out.value))
+        return z3.Implies(z3.Not(z3.Or(self.marked(), self.invoked_marked(), self.type_call_marked())), _sbx.ret_term(out.value))
 
-    posts = [("false_when_marked", p_marked), ("false_when_the_invoked_method_is_marked", p_invoked), ("true_otherwise", p_otherwise)]
+    posts = [("false_when_marked", p_marked), ("false_when_the_invoked_method_is_marked", p_invoked),
+             ("false_when_the_call_method_of_its_type_is_marked", p_type_call), ("true_otherwise", p_otherwise)]
 
     def concretize(self, model, pre, out):
         o = self.obj.t
@@ -315,12 +338,16 @@ class IsSafeCallable(VC):
                 # markers carried by obj.__call__ (a different object): they say nothing about obj
                 "call_marked": bool(b(has_fn("__call__")(o)) and any(
                     b(has_fn(k)(attr_fn("__call__")(o))) and b(truthy(attr_fn(k)(attr_fn("__call__")(o)))) for k in ("unsafe_callable", "alters_data"))),
+                "type_call_marked": bool(b(has_fn("__call__")(TYPE_FN(o))) and any(
+                    b(has_fn(k)(attr_fn("__call__")(TYPE_FN(o)))) and b(truthy(attr_fn(k)(attr_fn("__call__")(TYPE_FN(o))))) for k in ("unsafe_callable", "alters_data"))),
                 "init_marked": bool(kind == "class" and any(
                     b(has_fn(k)(attr_fn(m)(o))) and b(truthy(attr_fn(k)(attr_fn(m)(o)))) for k in ("unsafe_callable", "alters_data") for m in ("__init__", "__new__")))}
 
     def finding_key(self, res):
         w = res.witness or {}
         own = bool(w.get("unsafe_callable")) or bool(w.get("alters_data"))
+        if "call_method_of_its_type" in res.name:
+            return "type(obj).__call__ marked"
         return f"own markers={own}/invoked method marked={bool(w.get('call_marked') or w.get('init_marked'))}"
 
     def replay(self, w):
@@ -388,6 +415,25 @@ def replay_is_safe_callable(w):
         def __init__(self):
             pass
 
+    class Meta(type):
+        @S.unsafe
+        def __call__(cls, *a):
+            return "made"
+
+    class Registry(metaclass=Meta):
+        pass
+
+    class Job:
+        def __call__(self):
+            return "ran"
+    Job.__call__.alters_data = True
+    job = Job()
+    job.__dict__["__call__"] = lambda: "harmless"
+    if not any(bool(v) for v in marks.values()):
+        for desc, c in (("class whose metaclass __call__ is decorated with unsafe", Registry), ("instance whose marked class __call__ is shadowed by an instance attribute", job)):
+            got = env.is_safe_callable(c)
+            if bool(got):
+                probs.append(f"is_safe_callable({desc}) = {got}: calling it runs the marked type(obj).__call__; expected False")
     if not any(bool(v) for v in marks.values()):
         for desc, c in (("instance whose __call__ method is decorated with unsafe", FlaggedCall()), ("instance whose __call__ has alters_data", Dj()),
                         ("class whose __init__ is decorated with unsafe", FlaggedInit)):
@@ -756,6 +802,21 @@ def native_composition(task, tier, seed):
         def __init__(self, *a, **k):
             ran.append("markedinit")
 
+    class Meta(type):  # hunt i2/C18_2: what a call really runs is type(obj).__call__
+        @S.unsafe
+        def __call__(cls, *a, **k):
+            ran.append("metacall")
+
+    class Registry(metaclass=Meta):
+        pass
+
+    class Job:
+        def __call__(self, *a, **k):
+            ran.append("shadowed")
+    Job.__call__.alters_data = True
+    job = Job()
+    job.__dict__["__call__"] = lambda *a, **k: "harmless"
+
     flagged_hook = Hook()
     flagged_hook.unsafe_callable = True
     import functools
@@ -773,7 +834,8 @@ def native_composition(task, tier, seed):
         ctx = env.from_string("").new_context({})
         for name, fn, safe in (("plain", plain, True), ("marked", marked, False), ("django", django, False), ("method", Obj().method, False), ("fine", Obj().fine, True),
                                ("action", Action(), False), ("hook", flagged_hook, False), ("hook", Hook(), True), ("plain", part, False), ("fine", ok_part, True),
-                               ("markedcall", MarkedCall(), False), ("markedinit", MarkedInit, False)):
+                               ("markedcall", MarkedCall(), False), ("markedinit", MarkedInit, False),
+                               ("metacall", Registry, False), ("shadowed", job, False)):
             del ran[:]
             want_run = safe and envcls is not Deny
             try:
@@ -1175,6 +1237,50 @@ def native_shared_bytecode_cache(task, tier, seed):
     return [Res(nm, "discharged", "table", 0, "cache shared with a plain and with a sandboxed environment: the unsafe callable never ran", "table")]
 
 
+def replay_namespace_mapping(w=None):
+    """hunt i2/C18_1: `f(**x)` and dict(x) call x.keys() while the argument list is built; a template-built namespace serves `keys`
+    (not a special name) from its attributes"""
+    ran = []
+
+    class User:
+        @S.unsafe
+        def delete(self, *a):
+            ran.append("delete")
+            return ["a"]
+
+        def wipe(self, *a):
+            ran.append("wipe")
+            return []
+        wipe.alters_data = True
+
+    srcs = ["{{ lipsum(**namespace(keys=user.delete)) }}", "{{ dict(**namespace(keys=user.wipe)) }}", "{{ dict(namespace(keys=user.delete)) }}",
+            "{% macro m() %}{% endmacro %}{{ m(**namespace(keys=user.delete)) }}", "{{ 1|default(**namespace(keys=user.delete)) }}",
+            "{{ 1 is eq(**namespace(keys=user.delete)) }}", "{% set k = user.delete %}{% call lipsum(**namespace(keys=k)) %}{% endcall %}",
+            "{% set ns = namespace() %}{% set ns.keys = user.wipe %}{{ lipsum(**ns) }}"]
+    probs = []
+    for kw in ({}, {"enable_async": True}):
+        env = S.SandboxedEnvironment(**kw)
+        for src in srcs:
+            del ran[:]
+            try:
+                r = env.from_string(src).render(user=User())
+            except SecurityError:
+                r = "<SecurityError>"
+            except Exception as ex:
+                r = f"<{type(ex).__name__}>"
+            if ran:
+                probs.append(f"{kw}: {src} -> {r[:30]!r}, ran {ran}")
+    return (bool(probs), "; ".join(probs[:3]) or "no mapping-protocol lookup on a template-built namespace ran a stored callable")
+
+
+def native_namespace_mapping(task, tier, seed):
+    v, d = replay_namespace_mapping({})
+    nm = "C18.native.namespace_mapping_protocol"
+    if v:
+        return [Res(nm, "refuted", "table", 0, d, "table", {"family": "namespace_mapping_protocol"})]
+    return [Res(nm, "discharged", "table", 0, "8 templates x sync/async: no stored callable ran", "table")]
+
+
 class F19Task(FnTask):
     def finding_key(self, res):
         return "F19"
@@ -1203,6 +1309,7 @@ TASKS = [CallGate(), IsSafeCallable(), UnsafeDecorator(), ContextCall(),
          GettextAlias(True), GettextAlias(False),
          FamilyTable("C18", "C18.native.context_resolved_calls", native_context_resolved, "table", replay_context_resolved_calls),
          FnTask("C18", "C18.scan.context_resolved_calls", scan_context_calls, "table", replay_context_resolved_calls),
+         FamilyTable("C18", "C18.native.namespace_mapping_protocol", native_namespace_mapping, "table", replay_namespace_mapping),
          NamespaceSpecialNames(), FamilyTable("C18", "C18.native.namespace_protocol", native_namespace_protocol, "table", replay_namespace_protocol),
          F19Task("C18", "C18.native.shared_bytecode_cache", native_shared_bytecode_cache, "table",
                  lambda w: (lambda rs: (rs[0].status == "refuted", rs[0].detail))(native_shared_bytecode_cache(None, "quick", 0)))]
